@@ -70,6 +70,18 @@
    recovery run of Render after a browse error cannot leave the session without a position while
    code is pending - I found no history violating the theorem without this guard, so it is a
    proof guard, possibly removable).
+   FOLLOW-UP 2 (proofs/FlagProofs3.v): quiet_catch_b CANNOT be dropped.  The BrowseError branch of
+   Vm.Render is reachable - on the real engine too (witness in notes/integration_flags.md: a sink of
+   65538 rows makes joinSink's uint16 page counter wrap to 1, "next" renders page 1 and the menu
+   raises BrowseError; with a catch node that navigates before it halts the recovery run then
+   empties the position while code is pending, the next request LOADs at the empty position into
+   the base scope, and a later graceful end leaves two symbols there).  What is proved is the
+   sharp boundary: C20_browse_only_after_wrap - for fewer than 65535 sink rows (and less than
+   4 GiB of them) GetAt fails for EVERY idx >= page count, so (C20_sizer_error_before_menu) the
+   final render of a page whose sizer names the sink fails with the sizer's error before the menu
+   is consulted: never a BrowseError.  An alternative guard "every entry function returns fewer
+   than 65535 rows" could replace quiet_catch_b only together with a page/sizer consistency
+   invariant through run (not proved).
    Long-lived engine: C20_graceful_end_long (initialised engine whose last output was delivered;
    entry function or not).
    FALSE with an entry function (K-C20-first): C20_terminated_refuted_first - an entry function that
@@ -77,7 +89,7 @@
    next request is served normally; a session terminated otherwise outputs a stale value when
    blocked (C06_blocked_refuted_first). *)
 From Vise Require Import Bytes Errors Consts EngConsts Codec CacheModel StateModel NavModel NavSpec RenderModel
-  VmModel EngineModel CorrBase EngineCorr EngineMon CacheProofs VmProofs SafetyProofs FlagProofs FlagProofs2.
+  VmModel EngineModel CorrBase EngineCorr EngineMon CacheProofs RenderProofs VmProofs SafetyProofs FlagProofs FlagProofs2 FlagProofs3.
 Local Open Scope N_scope.
 
 Theorem C20_end_of_run_cases : forall fuel rs sep lang b v v',
@@ -306,6 +318,28 @@ Example C20_graceful_long_nonvacuous :
       /\ e_exit e' = s2b " bye").
 Proof. vm_compute. repeat split; try reflexivity. discriminate. Qed.
 
+(* ---- follow-up 2: when Render can see a BrowseError ------------------------------------------------- *)
+Theorem C20_browse_only_after_wrap : forall vs remaining ms r n crs idx,
+  len vs < 65535 -> rows_size vs < 4294967296 ->
+  join_sink vs remaining ms [0] = (Ok (r, n), crs) ->
+  0 < n -> n <= idx -> sink_page r crs idx = Err EGen.
+Proof. exact join_sink_past_end. Qed.
+
+Theorem C20_sizer_error_before_menu : forall gt gm pg sym vals idx z sink r,
+  p_sizer pg = Some z -> z_sink z = sink -> sink <> [] ->
+  alookup sink vals = Some r -> sink_page r (z_crsrs z) idx = Err EGen ->
+  (forall e, gt sym = Err e -> e <> EBrowse) ->
+  fst (page_render_inner gt gm pg sym vals idx) <> Err EBrowse.
+Proof. exact inner_past_end_not_browse. Qed.
+
+Example C20_trailing_empty_row_nonvacuous :
+  let bb := rep 98 40 in
+  let r0 := s2b "a" ++ [nl] ++ bb in
+  let '(res, crs) := join_sink [s2b "a"; bb; []] 40 (5, 6, 7, 13) [0] in
+  res = Ok (r0, 2) /\ crs = [0; 2; 43]
+  /\ sink_page r0 crs 2 = Err EGen /\ sink_page r0 crs 1 = Ok bb.
+Proof. exact join_sink_trailing_empty_row. Qed.
+
 (* ---- the entry-function class (K-C20-first) ------------------------------------------------------- *)
 (* corpus "first-terminate": on the second request the entry function returns "blocked" with
    TERMINATE: the request reports stop and outputs "blocked", the session is not saved, and the
@@ -412,6 +446,9 @@ Print Assumptions C20_graceful_end_history_refuted_anon.
 Print Assumptions C20_graceful_end_long.
 Print Assumptions C20_graceful_history_nonvacuous.
 Print Assumptions C20_graceful_long_nonvacuous.
+Print Assumptions C20_browse_only_after_wrap.
+Print Assumptions C20_sizer_error_before_menu.
+Print Assumptions C20_trailing_empty_row_nonvacuous.
 Print Assumptions C20_graceful_nonvacuous.
 Print Assumptions C20_graceful_inv_nonvacuous.
 Print Assumptions C20_restart_nonvacuous.
